@@ -246,6 +246,10 @@ def run(rep, facts, tier):
     rule_03_9(rep, fx)
     rule_03_11(rep, fx)
     rule_03_12(rep, fx)
+    # the GAP list and the NACKFRAG / ACKNACK sets are walked with NumberSetIter: a phantom member marks a number irrelevant that the writer never declared unavailable,
+    # and the next ACKNACK then acknowledges a sample that was never received (shared with C01 R01.7 / C14 R14.5; added after seed C03e)
+    from rules import numberset
+    numberset.run_rule(rep, fx, 'R03.13')
     from rules import numberset as _ns
     _ns.rule_from_base_and_set(rep, fx, 'R03.10')
 
